@@ -5,7 +5,7 @@ Import ListNotations.
 Open Scope nat_scope.
 
 Section RC.
-Variables (courses : list course) (parts : list participant) (pick : node -> list bool -> assignment -> list node).
+Variables (courses : list course) (parts : list participant) (rgate : node -> assignment -> out (option (list node))) (pick : node -> list bool -> assignment -> list node).
 Notation np := (np parts). Notation nc := (nc courses). Notation m_ := (m_ courses). Notation n_ := (n_ courses parts).
 Notation crs := (crs courses). Notation instructs := (instructs courses). Notation instr_only := (instr_only parts).
 Notation course_map := (course_map courses). Notation base := (base courses).
@@ -26,10 +26,15 @@ Inductive NodeRun (nd : node) (r : nres) : Prop :=
              (HP6.weight (adjacency courses parts) pm' <= ms)%Z)
    (nr_res : let a' := add_instr courses nd (amatch courses parts sy mm) in
              let s := (ms + instr_score courses parts nd)%Z in
-             r = if existsb (wrong_course parts sx a') (seq 0 np) || existsb (min_violation courses parts nd sx a') (seq 0 nc)
-                 then Infeasible (pick nd sx a') s else Feasible a' s).
+             match rgate nd a' with
+             | Val (Some bs) => r = Infeasible bs s
+             | Val None =>
+               r = if existsb (wrong_course parts sx a') (seq 0 np) || existsb (min_violation courses parts nd sx a') (seq 0 nc)
+                   then Infeasible (pick nd sx a') s else Feasible a' s
+             | _ => False
+             end).
 
-Theorem run_node_cases nd : forall r, run courses parts pick nd = Val r -> r = NoSolution \/ NodeRun nd r.
+Theorem run_node_cases nd : forall r, run courses parts rgate pick nd = Val r -> r = NoSolution \/ NodeRun nd r.
 Proof.
   intros r. unfold run, run_node.
   set (sx1 := skip_x1 courses parts nd). set (nsx := countB sx1). set (sy := skip_y courses nd). set (nsy := countB sy).
@@ -73,6 +78,9 @@ Proof.
   - exact Hpm.
   - exact Hms.
   - intros pm' Hpm'. apply Hopt, Hpm'.
-  - cbn zeta. destruct (existsb _ (seq 0 np) || existsb _ (seq 0 nc)); inversion H; reflexivity.
+  - cbn zeta. destruct (rgate nd _) as [[bs|]|site|]; try discriminate.
+    + inversion H; reflexivity.
+    + destruct (negb _ && existsb _ (seq 0 nc)); [discriminate|].
+      destruct (existsb _ (seq 0 np) || existsb _ (seq 0 nc)); inversion H; reflexivity.
 Qed.
 End RC.
